@@ -60,6 +60,13 @@ def run(P, rep, tier):
     rep.attempt(c04.r2_open_coverage, P, rep, ctx)
     rep.floor("C11.R2", 12)
     rep.floor("C02.R4", 11)
+    # refinement against the pinned tree for every function the rules above looked at (rules/pinned.py)
+    import os as _os
+
+    if not _os.environ.get("MDSA_PINNED_GEN"):
+        from .pinned import refine
+
+        refine(P, rep, ctx, "C11")
 
 
 def _order(rep, g, fi, rule, a_nodes, b_nodes, a_desc, b_desc):
